@@ -95,6 +95,11 @@ var genString = rapid.Custom(func(t *rapid.T) string {
 		return rapid.StringMatching(`[a-z0-9]([-a-z0-9]{0,12}[a-z0-9])?`).Draw(t, "dns")
 	case 2:
 		return rapid.SampledFrom([]string{"héllo wörld", "日本語", "a\"b\\c", "<&>", "line\nbreak", "tab\t", " ", "🙂"}).Draw(t, "unicode")
+	case 3:
+		// strings that mean something to the code under test wherever they turn up (apiVersion of a
+		// managedFields entry or an owner reference, kind, annotation keys and values, …)
+		return rapid.SampledFrom([]string{"apps/v1", "apps.pingcap.com/v1", "v1", "StatefulSet", "delete-slots", "paused-reconcile", "true", "[1,2]",
+			"apps.pingcap.com/upgrade-to-asts", "controller-revision-hash", "FieldsV1", "Update", "RollingUpdate", "OnDelete", "Parallel"}).Draw(t, "meaningful")
 	default:
 		return rapid.StringMatching(`[A-Za-z0-9_./:-]{1,10}`).Draw(t, "plain")
 	}
